@@ -28,6 +28,11 @@ package contractcourt
 //      (closesim_c13_oracle.go).
 //
 // Each execution runs in its own bubble and its own world.
+//
+// Arm "legacy+nursery" (closesim_c13_nursery.go): for one pre-anchor scenario
+// in four the node also runs lnd's UtxoNursery over a NurseryStore in the same
+// database instead of the chain script's nursery model; the store's write
+// transactions are crash points of the same enumeration.
 
 import (
 	"fmt"
@@ -104,6 +109,10 @@ type zzC13Scenario struct {
 	maxPre  int
 	ops     []zzC13Op
 	closeAt int // index in ops of the close trigger, -1 if none
+	// nursery: the node runs lnd's UtxoNursery on a NurseryStore in the same
+	// database (closesim_c13_nursery.go) instead of the chain script's
+	// nursery model. Pre-anchor channels only.
+	nursery bool
 }
 
 // zzC13Normalize narrows the C12 model where C12's subject (or an lnd quirk
@@ -199,7 +208,8 @@ type zzC13Exec struct {
 
 	w     *zzWorld
 	chain *zzC13Chain
-	cdb   *zzC13ChanDB // real channel database + ChainArbitrator.ResolveContract
+	cdb   *zzC13ChanDB  // real channel database + ChainArbitrator.ResolveContract
+	nurse *zzC13Nursery // real utxo nursery; nil unless sc.nursery
 
 	crashes []zzC13Crash // crash i is armed in epoch i+1
 	fired   []string     // descriptions of the crashes that fired
@@ -225,6 +235,7 @@ type zzC13Exec struct {
 	markAttempts      int
 	earlyMark         string
 	slackUsed         int
+	nurseCrashes      int // crashes that landed in a nursery-store write
 	skippedOps        int
 	localCommitUp     bool
 
@@ -241,6 +252,20 @@ func zzC13Main(r *simcore.Run, t *testing.T) {
 	sc := &zzC13Scenario{model: m, cfg: cfg, closeAt: -1}
 	sc.maxPre = 2 + tp.CfgDraw(8)
 	r.Arm = map[bool]string{true: "anchors", false: "legacy"}[m.anchors]
+	// LAST configuration draw (replay files recorded before it existed read 0
+	// here = the nursery model): one pre-anchor scenario in four runs the real
+	// utxo nursery.
+	nd := tp.CfgDraw(4)
+	if os.Getenv("VERIF_C13_NURSERY_ALL") == "1" {
+		// experiment knob (never set by the registered command): every
+		// pre-anchor scenario runs the real nursery
+		nd = 3
+	}
+	if nd == 3 && !m.anchors {
+		sc.nursery = true
+		r.Arm = "legacy+nursery"
+		r.Count("probe_nursery_real_arm")
+	}
 
 	// ---- reference execution
 	ref := &zzC13Exec{r: r, t: t, sc: sc, src: &zzC13Src{r: r, rec: true}}
@@ -277,11 +302,31 @@ func zzC13Main(r *simcore.Run, t *testing.T) {
 	}
 	tested := map[int]bool{}
 	w2 := map[int]int{} // point -> writes of the epoch after the first restart
-	pick := func(d int) int {
+	// real-nursery arm: which writes of the reference are the nursery store's
+	nurseWrite := map[int]bool{}
+	if sc.nursery {
+		for k := 1; k <= W; k++ {
+			if zzC13IsNurseLabel(refOut.label(0, k)) {
+				nurseWrite[k] = true
+			}
+		}
+		if len(nurseWrite) > 0 {
+			r.Count("probe_nursery_ref_with_store_writes")
+			r.Add("nursery_ref_store_writes", int64(len(nurseWrite)))
+		}
+	}
+	pick := func(d int, nurseOnly bool) int {
 		for i := 0; i < nPoints; i++ {
 			p := (d + i) % nPoints
-			if !tested[p] {
+			if !tested[p] && (!nurseOnly || nurseWrite[p/2+1]) {
 				return p
+			}
+		}
+		if nurseOnly {
+			for i := 0; i < nPoints; i++ {
+				if p := (d + i) % nPoints; !tested[p] {
+					return p
+				}
 			}
 		}
 		return -1
@@ -289,7 +334,9 @@ func zzC13Main(r *simcore.Run, t *testing.T) {
 	point := func(p int) zzC13Crash { return zzC13Crash{k: p/2 + 1, after: p%2 == 1} }
 	completed := 0
 	for i := 0; i < single && r.Step(); i++ {
-		p := pick(r.Draw(nPoints))
+		// in the nursery arm two sampled points in three are placed at writes
+		// of the nursery store (thorough enumerates every point anyway)
+		p := pick(r.Draw(nPoints), len(nurseWrite) > 0 && i%3 != 2)
 		if p < 0 {
 			r.Kind("crash-none")
 			break
@@ -318,6 +365,15 @@ func zzC13Main(r *simcore.Run, t *testing.T) {
 	// second crash after the restart
 	for i := 0; i < double && r.Step(); i++ {
 		p := r.Draw(nPoints)
+		if len(nurseWrite) > 0 && r.Tier != "thorough" && i%3 != 2 {
+			// first crash at a write of the nursery store
+			for j := 0; j < nPoints; j++ {
+				if q := (p + j) % nPoints; nurseWrite[q/2+1] {
+					p = q
+					break
+				}
+			}
+		}
 		c1 := point(p)
 		n2, ok := w2[p]
 		if !ok {
@@ -377,6 +433,9 @@ func (ex *zzC13Exec) run() {
 	w.hooks = ex.cdb
 	w.trace = ex.ref == nil
 	ex.chain = zzC13NewChain(ex)
+	if sc.nursery {
+		ex.nurse = zzC13NewNursery(ex)
+	}
 	ex.resolvedSeen = map[int]int{}
 	ex.keysSeen = map[string]bool{}
 	ex.resolvedAtRestart = map[string]string{}
@@ -388,6 +447,9 @@ func (ex *zzC13Exec) run() {
 	defer func() {
 		w.kv.OnTx = nil
 		w.kill()
+		if ex.nurse != nil {
+			ex.nurse.kill()
+		}
 		path := w.kv.Path()
 		w.kv.Close()
 		os.Remove(path)
@@ -397,13 +459,17 @@ func (ex *zzC13Exec) run() {
 	}
 
 	if ex.ref == nil {
-		r.Logf("cfg anchors=%v outDelta=%d inDelta=%d grace=%v perBlock=%v csv=%d startH=%d htlcs=%d hasP=%v maxPre=%d",
+		r.Logf("cfg anchors=%v outDelta=%d inDelta=%d grace=%v perBlock=%v csv=%d startH=%d htlcs=%d hasP=%v maxPre=%d realNursery=%v",
 			m.anchors, sc.cfg.world.outDelta, sc.cfg.world.inDelta, sc.cfg.world.grace, sc.cfg.world.perBlock,
-			m.csv, m.startH, m.live(), m.hasP, sc.maxPre)
+			m.csv, m.startH, m.live(), m.hasP, sc.maxPre, sc.nursery)
 		ex.logSets()
 	}
 
 	w.nextStim("start")
+	if ex.nurse != nil {
+		// server.go: utxoNursery.Start comes before chainArb.Start
+		ex.nurse.boot()
+	}
 	w.boot()
 	ex.pump()
 
@@ -473,6 +539,11 @@ func (ex *zzC13Exec) enabledPre(force bool) []string {
 		}
 		if !w.userAsked {
 			ops = append(ops, "user")
+			if ex.sc.nursery {
+				// the nursery only ever sees outputs of OUR commitment:
+				// make the road to a local force close wider in this arm
+				ops = append(ops, "user", "user")
+			}
 		}
 		// close triggers are the rarer choice (a zeroed draw means none)
 		if !ex.r.Chance(1, 3) {
@@ -489,6 +560,9 @@ func (ex *zzC13Exec) enabledPre(force bool) []string {
 	}
 	if ex.localCommitUp {
 		ops = append(ops, "close-local", "close-local", "close-local")
+		if ex.sc.nursery {
+			ops = append(ops, "close-local", "close-local", "close-local", "close-local", "close-local", "close-local")
+		}
 	}
 	ops = append(ops, "close-breach")
 	if m.live() == 0 && !ex.localCommitUp {
@@ -542,8 +616,19 @@ func (ex *zzC13Exec) runReplay() {
 	}
 }
 
-func (ex *zzC13Exec) terminal() bool {
+// arbGone: the channel is fully closed, there is no arbitrator any more.
+func (ex *zzC13Exec) arbGone() bool {
 	return ex.terminalAt > 0 || (ex.w.inc != nil && ex.w.inc.arb == nil)
+}
+
+// terminal: nothing is left to happen. With the real nursery that also
+// means that the nursery, which outlives the arbitrator, is done with the
+// channel.
+func (ex *zzC13Exec) terminal() bool {
+	if !ex.arbGone() {
+		return false
+	}
+	return ex.nurse == nil || ex.nurse.idle()
 }
 
 // apply executes one scenario stimulus.
@@ -607,7 +692,7 @@ func (ex *zzC13Exec) apply(op string) {
 		zzC13Normalize(m)
 		w.nextStim(fmt.Sprintf("preimage of hash%d becomes known (%d)", no, m.know[no]))
 	case "user":
-		if w.closeDelivered != "" || ex.terminal() {
+		if w.closeDelivered != "" || ex.arbGone() {
 			ex.skippedOps++
 			return
 		}
@@ -620,7 +705,7 @@ func (ex *zzC13Exec) apply(op string) {
 			ex.r.Harness("unknown scenario op %q", op)
 		}
 		kind := op[len("close-"):]
-		if w.closeDelivered != "" || ex.terminal() {
+		if w.closeDelivered != "" || ex.arbGone() {
 			ex.skippedOps++
 			return
 		}
@@ -641,7 +726,7 @@ func (ex *zzC13Exec) apply(op string) {
 		// has been taken — and made durable — before the close event
 		// arrives; a restart at this height re-takes the same decision.
 		ex.preBlock(1)
-		if ex.terminal() {
+		if ex.arbGone() {
 			ex.skippedOps++
 			return
 		}
@@ -668,7 +753,7 @@ func (ex *zzC13Exec) preBlock(n int) {
 }
 
 func (ex *zzC13Exec) beat() {
-	if ex.terminal() {
+	if ex.arbGone() {
 		return
 	}
 	ex.w.beat()
@@ -717,6 +802,12 @@ func (ex *zzC13Exec) pump() bool {
 			restarted = true
 			continue
 		}
+		if ex.nurse != nil {
+			ex.nurse.raise()
+			if ex.nurse.deliverConf() {
+				continue
+			}
+		}
 		if ex.chain.handleSweeps() {
 			continue
 		}
@@ -729,6 +820,10 @@ func (ex *zzC13Exec) pump() bool {
 		break
 	}
 	ex.snapshotKeys()
+	if ex.nurse != nil {
+		ex.nurse.observe()
+		ex.nurse.raise()
+	}
 	return restarted
 }
 
@@ -765,6 +860,9 @@ func (ex *zzC13Exec) handleResolved() bool {
 	// moment ResolveContract is entered.
 	if keys := ex.contractKeys(); len(keys) > 0 && ex.earlyMark == "" {
 		ex.earlyMark = fmt.Sprintf("%d unresolved contract(s) %v still in the log (arbitrator state %v)", len(keys), keys, inc.arb.state)
+	}
+	if ex.nurse != nil {
+		ex.nurse.atResolve()
 	}
 	w.logf("chain arbitrator: ResolveContract")
 	res := ex.cdb.resolveContract(inc)
@@ -825,6 +923,24 @@ func (ex *zzC13Exec) restart() {
 	ex.fired = append(ex.fired, desc)
 	if l := ex.labelOf(len(ex.labels)-1, n); l != "?" {
 		r.Count("probe_crash_at_" + l[:strings.Index(l, "<")])
+		if zzC13IsNurseLabel(l) {
+			// the crash landed in a write transaction of the nursery store
+			r.Count("fault_crash_in_nursery_store_write")
+			r.Count("fault_crash_nursery_" + l[:strings.Index(l, "<")])
+			ex.nurseCrashes++
+		}
+		if ex.ref != nil && ex.restarts == 1 && len(ex.crashes) > 0 {
+			// the last write that committed and the first that did not,
+			// as the uninterrupted run numbered them
+			c := ex.crashes[0]
+			done, lost := c.k-1, c.k
+			if c.after {
+				done, lost = c.k, c.k+1
+			}
+			if zzC13IsNurseLabel(ex.ref.label(0, done)) && zzC13IsNurseLabel(ex.ref.label(0, lost)) {
+				r.Count("probe_nursery_crash_between_two_store_writes")
+			}
+		}
 	}
 	ex.crashStims = append(ex.crashStims, w.stim)
 	ex.crashStates = append(ex.crashStates, ex.arbState())
@@ -833,6 +949,10 @@ func (ex *zzC13Exec) restart() {
 	r.State("crash/" + w.closeDelivered + "/" + ex.arbState())
 
 	w.kill()
+	if ex.nurse != nil {
+		ex.nurse.kill()
+	}
+	ex.chain.gate = 0
 	r.Must(w.kv.Reopen(), "reopen simkv")
 	ex.labels = append(ex.labels, map[int]string{})
 	if ex.restarts < len(ex.crashes) {
@@ -889,6 +1009,13 @@ func (ex *zzC13Exec) restart() {
 	}
 
 	w.nextStim(fmt.Sprintf("restart at height %d", w.height))
+	if ex.nurse != nil {
+		// server.go: utxoNursery.Start comes before chainArb.Start
+		ex.nurse.boot()
+		if w.kv.Fenced() {
+			return
+		}
+	}
 	w.boot()
 	if w.inc.arb == nil || w.kv.Fenced() {
 		return
@@ -943,6 +1070,9 @@ func (ex *zzC13Exec) onTx(write bool) {
 	for _, key := range ex.contractKeys() {
 		ex.keysSeen[key] = true
 	}
+	if ex.nurse != nil {
+		ex.nurse.observe()
+	}
 }
 
 func (ex *zzC13Exec) labelOf(epochIdx, k int) string {
@@ -968,6 +1098,11 @@ func zzC13WriteLabel() string {
 			short := name[i+len("contractcourt."):]
 			switch {
 			case strings.Contains(short, "boltArbitratorLog)."):
+				if method == "" {
+					method = short[strings.Index(short, ").")+2:]
+				}
+			case strings.Contains(short, "NurseryStore)."):
+				// the nursery store's own write transactions
 				if method == "" {
 					method = short[strings.Index(short, ").")+2:]
 				}
